@@ -143,15 +143,20 @@ func (s *scte35) parseTable(data []byte) error {
 			return gots.ErrInvalidSCTE35Length
 		}
 		// parse descriptors
-		descriptorLoopLength := binary.BigEndian.Uint16(buf.Next(2))
-		if buf.Len() < int(descriptorLoopLength+psi.CrcLen) {
+		// lengths are compared as ints: descriptor_loop_length + 4 does not fit in 16 bits for 0xFFFC and above
+		descriptorLoopLength := int(binary.BigEndian.Uint16(buf.Next(2)))
+		if buf.Len() < descriptorLoopLength+int(psi.CrcLen) {
 			return gots.ErrInvalidSCTE35Length
 		}
-		for bytesRead := uint16(0); bytesRead < descriptorLoopLength; {
+		for bytesRead := 0; bytesRead < descriptorLoopLength; {
+			if descriptorLoopLength-bytesRead < 2 {
+				// no room left for a descriptor tag and length
+				return gots.ErrInvalidSCTE35Length
+			}
 			descTag := readByte()
 			descLen := readByte()
 			// Make sure a bad descriptorLen doesn't kill us
-			if descriptorLoopLength-bytesRead-2 < uint16(descLen) {
+			if descriptorLoopLength-bytesRead-2 < int(descLen) {
 				return gots.ErrInvalidSCTE35Length
 			}
 			if descTag != segDescTag {
@@ -168,7 +173,7 @@ func (s *scte35) parseTable(data []byte) error {
 				}
 				s.descriptors = append(s.descriptors, d)
 			}
-			bytesRead += 2 + uint16(descLen)
+			bytesRead += 2 + int(descLen)
 		}
 	} else {
 		return gots.ErrUnknownTableID
